@@ -134,9 +134,8 @@ Lemma good_of_safe : forall p, safe_a p = true -> is_obs (a_final p) = false ->
 Proof.
   intros [bi [v pl] src steps fin arms] Hs Ho. unfold safe_a in Hs. simpl in *.
   apply andb_true_iff in Hs. destruct Hs as [_ Hs].
-  destruct pl as [|z|s]; simpl; [reflexivity| |].
-  - destruct fin; simpl in *; try discriminate; rewrite orb_false_r in Hs; exact Hs.
-  - apply andb_true_iff in Hs. destruct Hs as [Hne _]. exact Hne.
+  destruct pl as [|z|s]; simpl; [reflexivity|reflexivity|].
+  apply andb_true_iff in Hs. destruct Hs as [Hne _]. exact Hne.
 Qed.
 
 Lemma scrutinee_of_safe : forall p st, safe_a p = true -> is_obs (a_final p) = false ->
